@@ -527,6 +527,12 @@ class ExactnessMonitor(Monitor):
 
     def sig(self, sim, **kw):
         c = sim.cfg
+        if sim.strategy != "dimension_wise":
+            s = {"strategy": sim.strategy, "version": c.get("version"), "boundary": c["boundary"],
+                 "version12_lmin_ge_2": c.get("version") in (1, 2) and c["lmin"] >= 2, "automatic": c.get("automatic", False),
+                 "single_dim": c.get("single_dim", False)}
+            s.update(kw)
+            return s
         s = {"strategy": "dimension_wise", "version": c["version"], "rebalancing": c["rebalancing"],
              "rotation_fired": bool(sim.ctx.probes.get("rebalancing")), "boundary": c["boundary"],
              "lmax_raised": any(int(x) > c["lmax"] for x in sim.sa.lmax),
@@ -575,6 +581,8 @@ class ExactnessMonitor(Monitor):
         return False
 
     def fail_sig(self, sim, spec):
+        if sim.strategy != "dimension_wise":
+            return self.sig(sim, probe=spec[0])
         moved = self.relevelled_points(sim)
         return self.sig(sim, probe=spec[0], relevelled_in_support=self.probe_touches(spec, moved, sim.cfg))
 
@@ -604,15 +612,15 @@ class ExactnessMonitor(Monitor):
                                 sim.n_eval, spec, got, want, tol, list(sim.sa.lmax), sorted(scheme.items())), taint="exactness")
                 return
         ctx.ok("probe_integral_exact", len(f.probes))
-        if not f.probes or "interpolation" in ctx.tainted:
-            return
+        if not f.probes or "interpolation" in ctx.tainted or sim.strategy == "cell":
+            return          # the cell scheme does not support interpolation
         # interpolation at seeded points: random interior points, interval end points, grid points
         P = []
         for k in range(self.npoints):
             p = []
             for d in range(c["dim"]):
                 u = H(sim.rk, "ip", sim.n_eval, k, d)
-                if k % 3 == 2:
+                if k % 3 == 2 and sim.strategy == "dimension_wise":
                     objs = sim.containers()[d]
                     o = objs[int(u * len(objs)) % len(objs)]
                     x = float(o.end) if (o.end != c["b"][d] or c["boundary"]) else float(o.start)
